@@ -1,1 +1,81 @@
-From Ufw Require Import Model.RegTable.
+(* C01  Typed register set/get is lossless and constraint-enforcing.
+   Statements only; proofs in Proof/RegLemmas.v; model Model/RegTable.v (values as raw bit patterns,
+   floats as IEEE-754 bit patterns; tied to src/registers/core.c by ./check C01). *)
+From Ufw Require Import Base.Bits Model.RegTable Proof.RegLemmas.
+Local Open Scope N_scope.
+
+(* the words of a value in the table's byte order decode back to it: every type, both orders, every bit pattern *)
+Theorem C01_roundtrip_words : forall be t bits, bits < 2 ^ tbits t -> des_bits be t (ser_words be t bits) = bits.
+Proof. exact ser_des_roundtrip. Qed.
+Print Assumptions C01_roundtrip_words.
+
+(* a successful set (checked or unchecked) followed by get returns the identical value; the register's words
+   are exactly the value in the table's byte order *)
+Theorem C01_set_get : forall t idx v c e i a,
+  t_init t = true -> entry_at t idx = Some e -> entry_area t e = Some (i, a) ->
+  e_addr e + tsize (e_type e) <= a_base a + a_size a -> N.of_nat (length (a_words a)) = a_size a ->
+  v_type v = e_type e -> v_bits v < 2 ^ tbits (e_type e) ->
+  fst (fst (reg_setx t idx v c)) = ASuccess ->
+  let t' := snd (reg_setx t idx v c) in
+  reg_get t' idx = ((ASuccess, 0), Some v) /\
+  entry_words t' e = Some (ser_words (t_be t) (e_type e) (v_bits v)) /\
+  t_entries t' = t_entries t /\ t_init t' = true.
+Proof. exact set_then_get. Qed.
+Print Assumptions C01_set_get.
+
+(* ... and every other word of every area keeps its value *)
+Theorem C01_set_frame : forall t idx v c e i a,
+  t_init t = true -> entry_at t idx = Some e -> entry_area t e = Some (i, a) ->
+  e_addr e + tsize (e_type e) <= a_base a + a_size a -> N.of_nat (length (a_words a)) = a_size a ->
+  fst (fst (reg_setx t idx v c)) = ASuccess ->
+  let t' := snd (reg_setx t idx v c) in
+  (forall j, j <> i -> nth_error (t_areas t') j = nth_error (t_areas t) j) /\
+  (exists a', nth_error (t_areas t') i = Some a' /\
+     firstn (N.to_nat (e_addr e - a_base a)) (a_words a') = firstn (N.to_nat (e_addr e - a_base a)) (a_words a) /\
+     skipn (N.to_nat (e_addr e - a_base a + tsize (e_type e))) (a_words a')
+       = skipn (N.to_nat (e_addr e - a_base a + tsize (e_type e))) (a_words a) /\
+     length (a_words a') = length (a_words a)).
+Proof. exact set_frame. Qed.
+Print Assumptions C01_set_frame.
+
+(* a checked set succeeds exactly when the type matches and the min/max/range/callback/always-fail constraint holds
+   ([validate]), the area has a write callback, and a float is finite-normal-or-zero ([ser_ok]) *)
+Theorem C01_set_success_iff : forall t idx v e i a, t_init t = true -> entry_at t idx = Some e -> entry_area t e = Some (i, a) ->
+  (fst (fst (reg_setx t idx v true)) = ASuccess <->
+   validate (t_during t) e v = true /\ area_can_write a = true /\ ser_ok v = true).
+Proof. exact set_success_iff. Qed.
+Print Assumptions C01_set_success_iff.
+
+(* a refused set leaves all storage unchanged *)
+Theorem C01_refused_unchanged : forall t idx v c r t', reg_setx t idx v c = (r, t') -> fst r <> ASuccess -> t' = t.
+Proof. exact setx_refused_unchanged. Qed.
+Print Assumptions C01_refused_unchanged.
+
+(* 'no such entry' exactly for a handle that is not a register of the table, one-past-the-end included,
+   also by the unchecked variant *)
+Theorem C01_noentry_iff : forall t idx v c, t_init t = true ->
+  (fst (fst (reg_setx t idx v c)) = ANoEntry <-> N.of_nat (length (t_entries t)) <= idx).
+Proof. exact setx_noentry_iff. Qed.
+Print Assumptions C01_noentry_iff.
+
+(* the unchecked variant skips only the type and constraint checks ... *)
+Theorem C01_unsafe_success_iff : forall t idx v e i a, t_init t = true -> entry_at t idx = Some e -> entry_area t e = Some (i, a) ->
+  (fst (fst (reg_setx t idx v false)) = ASuccess <-> area_can_write a = true /\ ser_ok v = true).
+Proof. exact set_unsafe_success_iff. Qed.
+Print Assumptions C01_unsafe_success_iff.
+(* ... and stores exactly what the checked variant would *)
+Theorem C01_unsafe_same : forall t idx v, fst (fst (reg_setx t idx v true)) = ASuccess ->
+  reg_setx t idx v false = reg_setx t idx v true.
+Proof. exact set_unsafe_same_as_checked. Qed.
+Print Assumptions C01_unsafe_same.
+
+(* non-vacuity: a big-endian table with a range-constrained s32 register; NaN refused *)
+Example C01_example :
+  let a := {| a_base := 100; a_size := 4; a_readable := true; a_writeable := true; a_skip := false; a_has_read := true;
+              a_has_write := true; a_is_mem := true; a_words := [1;2;3;4]; a_first := 0; a_last := 0; a_count := 0 |} in
+  let t := {| t_init := true; t_during := false; t_be := true; t_areas := [a];
+              t_entries := [{| e_type := TS32; e_default := 0; e_addr := 101; e_check := CRange 4294967286 10; e_touched := false |}] |} in
+  a_words (nth 0 (t_areas (snd (reg_setx t 0 {| v_type := TS32; v_bits := 4294967291 |} true))) a) = [1; 65535; 64511; 4] /\
+  fst (reg_setx t 0 {| v_type := TS32; v_bits := 11 |} true) = (ARange, 101) /\
+  ser_ok {| v_type := TF32; v_bits := 2143289344 |} = false.
+Proof. repeat split; vm_compute; reflexivity. Qed.
